@@ -654,6 +654,9 @@ func (e *Engine) valEq(st *State, a, b Val, t types.Type) *Term {
 		if same(av.Obj, bs.Obj) && same(av.Off, bs.Off) && same(av.Len, bs.Len) {
 			return True
 		}
+		if eq, ok := itoaEq(av, bs); ok {
+			return eq
+		}
 		h := e.heap(st, strHeap, HeapI)
 		i := e.fresh("i", IntS)
 		return And(Eq(av.Len, bs.Len), Forall([]*Term{i}, nil,
